@@ -65,6 +65,16 @@ func canCreateTask(rj *execution.Job) bool {
 	return true
 }
 
+// isControlledByJob returns true if the task's controller reference points to the Job.
+func isControlledByJob(rj *execution.Job, task tasks.Task) bool {
+	for _, ref := range task.GetOwnerReferences() {
+		if ref.Controller != nil && *ref.Controller {
+			return ref.Kind == execution.KindJob && rj.UID == ref.UID
+		}
+	}
+	return false
+}
+
 func isTaskFinished(task tasks.Task) bool {
 	taskStatus := task.GetTaskRef()
 	return !taskStatus.FinishTimestamp.IsZero()
